@@ -37,7 +37,7 @@ func zzStoredCondition(s *kube.Store, t xpv1.ConditionType) xpv1.Condition {
 // not re-asserted become Unknown.
 //
 //gosym:harness
-//gosym:cover ready-true ready-false synced-true synced-false forged-system-condition fatal custom-condition
+//gosym:cover ready-true ready-false synced-true synced-false forged-system-condition fatal custom-condition claim-condition
 func HarnessC05Pipeline() {
 	n := zz.Bound(2, 2)
 	s := kube.New()
@@ -61,6 +61,14 @@ func HarnessC05Pipeline() {
 	ct := zz.Str("cond.type")
 	cs := []fnv1.Status{fnv1.Status_STATUS_CONDITION_TRUE, fnv1.Status_STATUS_CONDITION_FALSE, fnv1.Status_STATUS_CONDITION_UNKNOWN}[zz.Choose("cond.status", 3)]
 	st.conds = []*fnv1.Condition{{Type: ct, Status: cs, Reason: "FromFunction"}}
+	// ... aimed at the XR only (the default) or at the XR and its claim
+	target := zz.Choose("cond.target", 3)
+	switch target {
+	case 1:
+		st.conds[0].Target = fnv1.Target_TARGET_COMPOSITE.Enum()
+	case 2:
+		st.conds[0].Target = fnv1.Target_TARGET_COMPOSITE_AND_CLAIM.Enum()
+	}
 	runner := &zzRunner{steps: []zzStep{st}}
 
 	// the API server rejects some composed resources as invalid
@@ -134,6 +142,19 @@ func HarnessC05Pipeline() {
 	} else if !st.fatal {
 		got := zzStoredCondition(s, xpv1.ConditionType(ct))
 		zz.Assert("custom-function-condition-is-stored", got.Reason == "FromFunction")
+	}
+	// only a custom condition aimed at the claim is marked for the claim
+	stored := zzReadXR(s)
+	marked := false
+	for _, t := range stored.GetClaimConditionTypes() {
+		if string(t) == ct {
+			marked = true
+		}
+		zz.Assert("system-condition-types-never-marked-for-the-claim", !xpv1.IsSystemConditionType(t))
+	}
+	if marked {
+		zz.Cover("claim-condition")
+		zz.Assert("condition-marked-for-the-claim-only-if-aimed-at-it", target == 2)
 	}
 	zz.Observe("conditions", string(ready.Status), string(synced.Status))
 }
